@@ -1,6 +1,7 @@
 CONSTANTS Depth = 3
           Record = FALSE
           Wide = FALSE
+          Full = FALSE
 INIT Init
 NEXT Next
 INVARIANT MemoAdmitted
